@@ -4,7 +4,7 @@ meta-blocks of the brotli.Reader model against the specification, and the
 induction over the meta-blocks of a stream (compressed meta-blocks: hypothesis
 `CompressedSim`).
 -/
-import Compress.Proofs.BrImplStreamDefs
+import Compress.Proofs.BrImplStreamDefs2
 import Compress.Proofs.FlateStep
 import Compress.Proofs.BrCutCore
 
@@ -360,11 +360,11 @@ open Compress.Proofs.FlateRefine (toBytes_take_length) in
 /-- `readRawData`, entered with `blkLen = n` bytes of the meta-block still to copy, against
     `copyBytes n` followed by `K`. -/
 theorem raw_action (sd : ByteArray) (ws : Nat) (ds : Dists) (B : Nat) (K : Dec Unit) (L : Nat) (P : St → Prop)
-    (HK : ∀ s' st' del', P st' → Rel ws s' st' ds del' → s'.step = .blockHeader → s'.last = false →
+    (HK : ∀ s' st' del', P st' → RelZ ws s' st' ds del' → s'.step = .blockHeader → s'.last = false →
       st'.bits.length ≤ L → Outcome sd s' del' B (K st')) :
     ∀ (m : Nat) (n : Nat) (s1 : State) (st : St) (del : List UInt8),
       2 * n + (if s1.dict.availSize = 0 then 1 else 0) ≤ m →
-      Rel ws s1 st ds del → s1.blkLen = (n : Int) → 1 ≤ n → s1.last = false → st.used % 8 = 0 →
+      RelZ ws s1 st ds del → s1.blkLen = (n : Int) → 1 ≤ n → s1.last = false → st.used % 8 = 0 →
       st.bits.length ≤ L → (∀ st', copyBytes n st = (.ok (), st') → P st') →
       Progress s1 (fin (readRawData s1)) ∧
       Outcome sd (fin (readRawData s1)) del B ((copyBytes n >>= fun _ => K) st) := by
@@ -442,7 +442,7 @@ theorem raw_action (sd : ByteArray) (ws : Nat) (ds : Dists) (B : Nat) (K : Dec U
           simp only
           have hnk : 1 ≤ n - k := by omega
           -- the drained state is a raw-data state again
-          have hRel : Rel ws (drain { s1 with
+          have hRel0 : Rel ws (drain { s1 with
               dict := d1.readFlush.1, toRead := d1.readFlush.2, step := Step.rawData,
               blkLen := (n : Int) - (k : Int),
               rd := { bits := st.bits.drop (8 * k), used := st.used + 8 * k },
@@ -463,6 +463,15 @@ theorem raw_action (sd : ByteArray) (ws : Nat) (ds : Dists) (B : Nat) (K : Dec U
             · have := hR.aligned
               simp only [stCopy, List.length_drop]; omega
             · simpa [drain, deliver] using hR.mtf
+          have hz1 : Zeros d1 := by rw [← hd1]; exact hR.zeros.writeBytes hR.win.wr_le _
+          have hsz : st.out.size ≤ (stCopy st k).out.size := by
+            simp only [stCopy, Array.size_append]; omega
+          have hRel : RelZ ws (drain { s1 with
+              dict := d1.readFlush.1, toRead := d1.readFlush.2, step := Step.rawData,
+              blkLen := (n : Int) - (k : Int),
+              rd := { bits := st.bits.drop (8 * k), used := st.used + 8 * k },
+              inOff := (st.used + 8 * k + 7) / 8 }) (stCopy st k) ds (del ++ d1.readFlush.2) :=
+            ⟨hRel0, hz1.readFlush, by have := hR.dinv; omega, hR.ws2⟩
           have hav' : (drain { s1 with
               dict := d1.readFlush.1, toRead := d1.readFlush.2, step := Step.rawData,
               blkLen := (n : Int) - (k : Int),
@@ -509,9 +518,12 @@ theorem raw_action (sd : ByteArray) (ws : Nat) (ds : Dists) (B : Nat) (K : Dec U
         · rw [hsplit, Nat.sub_self]
           have hc0 : (copyBytes 0 >>= fun _ => K) (stCopy st k) = K (stCopy st k) := rfl
           rw [hc0]
-          refine HK _ (stCopy st k) del (hP _ (copyBytes_ok k st hk8)) ?_ rfl (by simpa using hlast)
+          have hsz : st.out.size ≤ (stCopy st k).out.size := by
+            simp only [stCopy, Array.size_append]; omega
+          refine HK _ (stCopy st k) del (hP _ (copyBytes_ok k st hk8))
+            ⟨⟨?_, ?_, ?_, ?_, ?_, ?_, ?_, ?_, ?_, ?_, ?_⟩, hR.zeros.writeBytes hR.win.wr_le _,
+              by have := hR.dinv; omega, hR.ws2⟩ rfl (by simpa using hlast)
             (by simp only [stCopy, List.length_drop]; omega)
-          constructor
           · simpa using hR.toRead
           · simpa using hR.err
           · simpa using hR.sub
@@ -534,7 +546,7 @@ theorem raw_action (sd : ByteArray) (ws : Nat) (ds : Dists) (B : Nat) (K : Dec U
 
 /-- the boundary form of the induction hypothesis. -/
 def BlocksOK (sd : ByteArray) (ws B : Nat) (I : St → Prop) (fuel : Nat) : Prop :=
-  ∀ (s : State) (st : St) (ds : Dists) (del : List UInt8), I st → Rel ws s st ds del → s.step = .blockHeader →
+  ∀ (s : State) (st : St) (ds : Dists) (del : List UInt8), I st → RelZ ws s st ds del → s.step = .blockHeader →
     s.last = false → st.bits.length < fuel → st.bits.length ≤ B →
     Outcome sd s del B (readMetaBlocks sd ws fuel ds st)
 
@@ -584,9 +596,16 @@ theorem Rel.congr {ws : Nat} {s s' : State} {st st' : St} {ds : Dists} {del : Li
   · exact h9
   · rw [h10]; exact h.mtf
 
+theorem RelZ.congr {ws : Nat} {s s' : State} {st st' : St} {ds : Dists} {del : List UInt8} (h : RelZ ws s st ds del)
+    (h1 : s'.toRead = s.toRead) (h2 : s'.err = s.err) (h3 : s'.stepState = s.stepState) (h4 : s'.word = s.word)
+    (h5 : s'.rd = brOf st') (h6 : s'.dict = s.dict) (h7 : st'.out = st.out)
+    (h8 : s'.dists0 = s.dists0 ∧ s'.dists1 = s.dists1 ∧ s'.dists2 = s.dists2 ∧ s'.dists3 = s.dists3)
+    (h9 : (st'.used + st'.bits.length) % 8 = 0) (h10 : s'.mtf = s.mtf) : RelZ ws s' st' ds del :=
+  ⟨h.toRel.congr h1 h2 h3 h4 h5 h6 h7 h8 h9 h10, by rw [h6]; exact h.zeros, by rw [h7]; exact h.dinv, h.ws2⟩
+
 theorem hdr_action (sd : ByteArray) (ws B fuel : Nat) (I G : St → Prop) (hReach : Reach sd ws I G)
-    (hC : CompressedSimOn sd G) (IH : BlocksOK sd ws B I fuel)
-    (s1 : State) (st : St) (ds : Dists) (del : List UInt8) (hI : I st) (hR : Rel ws s1 st ds del)
+    (hC : CompressedSimOnZ sd G) (IH : BlocksOK sd ws B I fuel)
+    (s1 : State) (st : St) (ds : Dists) (del : List UInt8) (hI : I st) (hR : RelZ ws s1 st ds del)
     (hl : s1.last = false)
     (hf : st.bits.length ≤ fuel) (hB : st.bits.length ≤ B) :
     Progress s1 (fin (readBlockHeader s1)) ∧
@@ -653,7 +672,7 @@ theorem hdr_action (sd : ByteArray) (ws B fuel : Nat) (I G : St → Prop) (hReac
             rw [skipBytes_ok skip st2 h8]
             simp only
             rw [fin_ok _ (by simpa using hR.err)]
-            have hRel : Rel ws { s1 with
+            have hRel : RelZ ws { s1 with
                 rd := { bits := st2.bits.drop (8 * skip), used := st2.used + 8 * skip }, last := last,
                 blkLen := (skip : Int), step := Step.blockHeader,
                 inOff := (st2.used + 8 * skip + 7) / 8 } (stAt st2 (8 * skip)) ds del :=
@@ -667,7 +686,7 @@ theorem hdr_action (sd : ByteArray) (ws B fuel : Nat) (I G : St → Prop) (hReac
             · cases last with
               | true =>
                 simp only [if_true]
-                have := last_outcome sd _ (stAt st2 (8 * skip)) ws ds del B hRel rfl rfl
+                have := last_outcome sd _ (stAt st2 (8 * skip)) ws ds del B hRel.toRel rfl rfl
                 rwa [alignToByte_aligned _ (by simp only [stAt_used]; omega)] at this
               | false =>
                 simp only [Bool.false_eq_true, if_false]
@@ -704,7 +723,7 @@ theorem hdr_action (sd : ByteArray) (ws B fuel : Nat) (I G : St → Prop) (hReac
             have hlen2 : st2.bits.length < st.bits.length := by
               rw [← hst2]; simp only [stAt_bits, List.length_drop] at hlt ⊢; omega
             have hout2 : st2.out = st.out := by rw [← hst2]; rfl
-            have hRel : Rel ws { s1 with rd := brOf st2, last := false, blkLen := (mlen : Int) } st2 ds del :=
+            have hRel : RelZ ws { s1 with rd := brOf st2, last := false, blkLen := (mlen : Int) } st2 ds del :=
               hR.congr rfl rfl rfl rfl rfl rfl hout2 ⟨rfl, rfl, rfl, rfl⟩ hal2 rfl
             have hra := raw_action sd ws ds B (readMetaBlocks sd ws fuel ds) st2.bits.length I
               (fun s' st' del' hI' hR' hs' hl' hL' => IH s' st' ds del' hI' hR' hs' hl' (by omega) (by omega))
@@ -721,7 +740,7 @@ theorem hdr_action (sd : ByteArray) (ws B fuel : Nat) (I G : St → Prop) (hReac
             simp only [hR.rd, brOf_bits]; omega
         | false =>
           simp only [specBody, Dec_bind_apply]
-          have hRel : Rel ws { s1 with rd := brOf (stAt st k), last := last, blkLen := (mlen : Int) }
+          have hRel : RelZ ws { s1 with rd := brOf (stAt st k), last := last, blkLen := (mlen : Int) }
               (stAt st k) ds del :=
             hR.congr rfl rfl rfl rfl rfl rfl rfl ⟨rfl, rfl, rfl, rfl⟩ hal1 rfl
           obtain ⟨hc1, hc2⟩ := hC ws _ (stAt st k) ds del mlen (hReach.comp st _ last mlen hI hy) hRel rfl hm1 hm2
@@ -748,14 +767,14 @@ theorem hdr_action (sd : ByteArray) (ws B fuel : Nat) (I G : St → Prop) (hReac
               cases last with
               | true =>
                 simp only [if_true]
-                exact last_outcome sd s' st' ws ds' (del ++ X) B hRel' hstep' (by rw [hlast'])
+                exact last_outcome sd s' st' ws ds' (del ++ X) B hRel'.toRel hstep' (by rw [hlast'])
               | false =>
                 simp only [Bool.false_eq_true, if_false]
                 exact IH s' st' ds' (del ++ X) (hReach.next st _ mlen ds ds' st' hI hy hsc) hRel' hstep'
                   (by rw [hlast']) (by omega) (by omega)
 
 theorem blocks_sim (sd : ByteArray) (ws B : Nat) (I G : St → Prop) (hReach : Reach sd ws I G)
-    (hC : CompressedSimOn sd G) : ∀ fuel, BlocksOK sd ws B I fuel := by
+    (hC : CompressedSimOnZ sd G) : ∀ fuel, BlocksOK sd ws B I fuel := by
   intro fuel
   induction fuel with
   | zero => intro s st ds del _ _ _ _ h; omega
@@ -836,7 +855,7 @@ attribute [local irreducible] Impl.decWinBits in
 /-- **Stream level.** Given the simulation of compressed meta-blocks, the reader model started on
     `bytes` ends like the specification's `readStream`. -/
 theorem stream_sim_on (sd : ByteArray) (hW : WinBitsSim) (I G : St → Prop)
-    (hReach : ∀ ws, Reach sd ws I G) (hC : CompressedSimOn sd G) (bytes : List UInt8)
+    (hReach : ∀ ws, Reach sd ws I G) (hC : CompressedSimOnZ sd G) (bytes : List UInt8)
     (hI0 : ∀ w st1, readWindowBits { bits := Bits.ofBytes bytes, used := 0, out := #[] } = (.ok w, st1) → I st1) :
     Outcome sd (init bytes) [] (8 * bytes.length)
       (readStream sd { bits := Bits.ofBytes bytes, used := 0, out := #[] }) := by
@@ -875,7 +894,7 @@ theorem stream_sim_on (sd : ByteArray) (hW : WinBitsSim) (I G : St → Prop)
       have hrem : remainingBits (stAt st0 k) = (.ok (stAt st0 k).bits.length, stAt st0 k) := rfl
       rw [hrem]
       simp only
-      have hRel : Rel (2 ^ w - 16) { (init bytes) with rd := brOf (stAt st0 k), dict := Dict.init (2 ^ w - 16) (init bytes).dict.cap } (stAt st0 k) {} [] := by
+      have hRel0 : Rel (2 ^ w - 16) { (init bytes) with rd := brOf (stAt st0 k), dict := Dict.init (2 ^ w - 16) (init bytes).dict.cap } (stAt st0 k) {} [] := by
         constructor
         · rfl
         · rfl
@@ -895,6 +914,10 @@ theorem stream_sim_on (sd : ByteArray) (hW : WinBitsSim) (I G : St → Prop)
         · exact ⟨by decide, by decide, by decide, by decide⟩
         · simp only [stAt_used, stAt_bits, List.length_drop]; omega
         · exact mtfOK_init
+      have hRel : RelZ (2 ^ w - 16) { (init bytes) with rd := brOf (stAt st0 k), dict := Dict.init (2 ^ w - 16) (init bytes).dict.cap } (stAt st0 k) {} [] :=
+        ⟨hRel0, Zeros.init _ _, ⟨by show 4 ≤ _; omega, by show 11 ≤ _; omega, by show 15 ≤ _; omega, by show 16 ≤ _; omega⟩, by
+          have : 2 ^ 10 ≤ 2 ^ w := Nat.pow_le_pow_right (by omega) hw10
+          omega⟩
       have hact := hdr_action sd (2 ^ w - 16) (8 * bytes.length) (stAt st0 k).bits.length I G (hReach _) hC
         (blocks_sim sd _ _ I G (hReach _) hC _) _ (stAt st0 k) {} [] (hI0 w _ hy) hRel rfl (Nat.le_refl _)
         (by simp only [stAt_bits, List.length_drop]; omega)
@@ -904,10 +927,10 @@ theorem stream_sim_on (sd : ByteArray) (hW : WinBitsSim) (I G : St → Prop)
 
 attribute [local irreducible] Impl.decWinBits in
 /-- the stream level with the simulation of compressed meta-blocks available everywhere. -/
-theorem stream_sim (sd : ByteArray) (hW : WinBitsSim) (hC : CompressedSim sd) (bytes : List UInt8) :
+theorem stream_sim (sd : ByteArray) (hW : WinBitsSim) (hC : CompressedSimZ sd) (bytes : List UInt8) :
     Outcome sd (init bytes) [] (8 * bytes.length)
       (readStream sd { bits := Bits.ofBytes bytes, used := 0, out := #[] }) :=
-  stream_sim_on sd hW (fun _ => True) (fun _ => True) (fun ws => Reach.trivial sd ws) (hC.on _) bytes
+  stream_sim_on sd hW (fun _ => True) (fun _ => True) (fun ws => Reach.trivial sd ws) hC bytes
     (fun _ _ _ => True.intro)
 
 /-! ### layer (c): streams without compressed meta-blocks -/
